@@ -537,7 +537,53 @@ func (w *treeWorld) txnOp(tx *treeTxn) bool {
 	k := w.key()
 	w.nextID++
 	val := w.nextID * 10
-	switch c.Weighted([]int{10, 3, 5, 2, 8, 6, 3, 3}) {
+	switch c.Weighted([]int{10, 3, 5, 2, 8, 6, 3, 3, 3, 3}) {
+	case 8: // burst of inserts: grows nodes past every size threshold within one transaction
+		n := 5 + c.Choose(60)
+		for i := 0; i < n; i++ {
+			k := w.key()
+			w.nextID++
+			v := w.nextID * 10
+			old, had := tx.txn.Insert(kb(k), v)
+			mo, mh := tx.model[k]
+			if had != mh || (had && old != mo) {
+				r.Violate("C11", "insert-old", "Txn.Insert(%q) (burst) returned (%d,%v) want (%d,%v)", k, old, had, mo, mh)
+				return false
+			}
+			tx.model[k] = v
+			tx.changed[k] = true
+			delete(tx.lastIW, k)
+		}
+		w.probe("insert-burst")
+		r.Logf("txn insert burst of %d", n)
+		return w.checkOps("open transaction after insert burst", tx.txn, tx.model, 2)
+	case 9: // burst of deletes: shrinks nodes below every size threshold within one transaction
+		ks := sortedKVs(tx.model)
+		if len(ks) == 0 {
+			return true
+		}
+		n := 1 + c.Choose(len(ks))
+		for i := 0; i < n; i++ {
+			ks = sortedKVs(tx.model)
+			if len(ks) == 0 {
+				break
+			}
+			k := ks[c.Choose(len(ks))].k
+			old, had := tx.txn.Delete(kb(k))
+			if !had || old != tx.model[k] {
+				r.Violate("C11", "delete-old", "Txn.Delete(%q) (burst) returned (%d,%v) want (%d,true)", k, old, had, tx.model[k])
+				return false
+			}
+			delete(tx.model, k)
+			tx.changed[k] = true
+			delete(tx.lastIW, k)
+			if i%7 == 6 && !w.checkOps("open transaction inside delete burst", tx.txn, tx.model, 1) {
+				return false
+			}
+		}
+		w.probe("delete-burst")
+		r.Logf("txn delete burst of %d", n)
+		return w.checkOps("open transaction after delete burst", tx.txn, tx.model, 2)
 	case 0, 1: // Insert / InsertWatch
 		var old int
 		var had bool
